@@ -314,7 +314,8 @@ def _check(case, v):
                                        f"expected {exp!r} {u}")
         if r.units() != u:
             return v.fail("sum-units", f"result units {r.units()!r} != {u!r}")
-        if kind == "sum" and not isinstance(a, list):
+        if kind == "sum" and not isinstance(a, list) and abs(level_to_db(a, u)) < 2900 and abs(level_to_db(b, u)) < 2900:
+            # (beyond +-2900 dB the linear power is not a normal double: the sum is computed on subnormals)
             # operands that are one object, or derived from one another (results inherit their operand's internals)
             qa, qb = Quantity(a, u), Quantity(b, u)
             twice = qa + qa
